@@ -336,15 +336,18 @@ theorem view_putOperation_left (R : String) (a a' : NodeSt) (op : NOp) (h : putO
   · cases h
   · simp only [Option.some.injEq] at h; rw [← h]; exact ⟨rfl, rfl, rfl⟩
 
+theorem view_putOperationOnce (R : String) (a : NodeSt) (op : NOp) : ViewEq R (putOperationOnce a op) a := by
+  unfold putOperationOnce
+  cases hp : putOperation a op with
+  | some a' => exact view_putOperation_left R a a' op hp
+  | none => exact ViewEq.refl _ _
+
 theorem top_view (R : String) (st : NodeSt) (m : NMsg) (now : Time) (payloadOf : Tasks.Msg → Bytes) :
     ViewEq R (processMessageTop st m now payloadOf).st (processMessage st m now payloadOf).st := by
   unfold processMessageTop
   dsimp only
   split
-  · rename_i op _ _
-    cases hp : putOperation (processMessage st m now payloadOf).st op with
-    | some st' => exact view_putOperation_left R _ _ _ hp
-    | none => exact ViewEq.refl _ _
+  · exact view_putOperationOnce R _ _
   · exact ViewEq.refl _ _
 
 theorem view_top {a b : NodeSt} (m : NMsg) (h : ViewEq m.round a b) (now : Time) (payloadOf : Tasks.Msg → Bytes) :
